@@ -66,7 +66,25 @@ def gen_cases(tier, rng):
     for i, (f, rl, sl) in enumerate(nat):
         out.append({"f": f, "reset_length": rl, "stop_length": sl, "power_on": int(i % 3 != 2),
                     "seed": rng.u64(), "k": i})
+    # a synchronous reset of the controller's clock domain in the middle of a pulse (appended last: the seeds of
+    # the cases above do not move)
+    for i, (r, s) in enumerate([(5, 3), (3, 9), (6, 6), (1, 4), (9, 2), (2, 33)][:6 if tier != "quick" else 4]):
+        out.append({"f": 1e6, "reset_length": r * 1e-6, "stop_length": s * 1e-6, "power_on": int(i % 3 != 2),
+                    "seed": rng.u64(), "k": i, "domreset": 1})
     return out
+
+
+def make_domreset_stimulus(R, S, rng, power_on):
+    """trigger column value 2 = synchronous reset of the clock domain (no trigger): resets land at every offset of
+    a pulse (power-on pulse or triggered pulse), in shuffled order, each followed by enough idle time."""
+    total = R + S
+    trig = []
+    for off in rng.shuffle(list(range(0, total + 3))):
+        if not power_on or rng.chance(50):
+            trig += [0] * (total + 2) + [1]          # let any running pulse end, then trigger a new one
+        trig += [0] * off + [2]
+    trig += [0] * (total + 5)
+    return [[v] for v in trig]
 
 
 def make_stimulus(R, S, rng, k):
@@ -107,13 +125,15 @@ def expected_waveform(R, S, power_on, trig):
     for t, x in enumerate(trig):
         if start is None:
             exp.append((0, 0))
-            if x:
+            if x == 1:
                 start = t + 1
         else:
             k = t - start
             exp.append((1 if k < R else 0, 1))
             if k + 1 == R + S:
                 start = None
+        if x == 2:          # reset of the clock domain: the controller is in its power-on state from the next cycle
+            start = t + 1 if power_on else None
     return exp
 
 
@@ -140,8 +160,17 @@ def run_case(desc):
                       "durations takes ceil(duration*f) = %r cycles" % (f, rl, sl, (R, S), exact)})
         return Case([max(R, 1), max(S, 1), int(po)], [[0]], [[None, None]], fails, tags + ["cycle-count-off"], desc,
                     ["trigger"], ["phy_reset", "phy_stop"], lean=False)
-    stim = desc.get("stimulus") or make_stimulus(R, S, Rng(desc["seed"]), desc.get("k", 0))
-    rows = sim.run_cycles(dut, [dut.trigger], [dut.phy_reset, dut.phy_stop], stim)
+    if desc.get("stimulus"):
+        stim = desc["stimulus"]
+    elif desc.get("domreset"):
+        stim = make_domreset_stimulus(R, S, Rng(desc["seed"]), po)
+    else:
+        stim = make_stimulus(R, S, Rng(desc["seed"]), desc.get("k", 0))
+    from amaranth import Signal
+    from amaranth.hdl import ResetInserter
+    rst = Signal(name="sync_domain_reset")
+    rows = sim.run_cycles(ResetInserter({"sync": rst})(dut), [dut.trigger, rst], [dut.phy_reset, dut.phy_stop],
+                          [[int(r[0] == 1), int(r[0] == 2)] for r in stim])
     trig = [r[0] for r in stim]
     exp = expected_waveform(R, S, po, trig)
     for t, (got, want) in enumerate(zip(rows, exp)):
@@ -162,4 +191,6 @@ def run_case(desc):
         tags.append("returned-to-idle")
     n_pulses = sum(1 for i in range(1, len(exp)) if exp[i][0] and not exp[i - 1][0])
     tags.append("pulses>=2" if n_pulses >= 2 else "pulses<2")
+    if any(r[0] == 2 for r in stim):
+        tags.append("domain-reset-mid-pulse")
     return Case([R, S, int(po)], stim, rows, fails, tags, desc, ["trigger"], ["phy_reset", "phy_stop"])
